@@ -797,9 +797,6 @@ class TrajectoryStore:
             output_store, input_stores, input_stores_pattern, input_stores_index_range
         )
 
-        # Create output directory.
-        os.mkdir(output_store)
-
         # Collect metadata and check that the field sets match.
         store_data = []
         fieldset_names: set[str] | None = None
@@ -821,6 +818,10 @@ class TrajectoryStore:
         indexable = all(g is not None for g in index_groups)
         if indexable != any(g is not None for g in index_groups):
             raise ValueError('Either all or none of the input stores must be indexable')
+
+        # Create output directory. (Only now: a refused merge must not leave
+        # anything behind that would block a corrected retry.)
+        os.mkdir(output_store)
 
         # Move input stores to output directory.
         for input_store in input_stores:
